@@ -205,3 +205,82 @@ Proof.
     destr H; injection H as <- _; fold (mu K s);
       first [apply (G (close_sub s h)); auto | apply (G s); auto].
 Qed.
+
+(** internal labels create no thread *)
+Lemma tbounded_step K s l s' evs : tbounded K s -> internal l = true -> step s l = Some (s', evs) -> tbounded K s'.
+Proof.
+  intros B Hi H t Ht. specialize (B t Ht) as Bt.
+  destruct l; try discriminate Hi; unfold step in H.
+  - destr H; injection H as <- _; simpl; auto.
+  - destr H; injection H as <- _; simpl; auto.
+  - destruct (thr s t0) eqn:E; try discriminate H.
+    all: assert (N : t <> t0) by (intros ->; congruence).
+    + destr H; injection H as <- _; simpl; rewrite upd_other by exact N; auto.
+    + destruct (rh_step s (OThr t0) par p c) as [[[s1 p'] e1]|] eqn:RH; [|discriminate]. injection H as <- _.
+      unfold rh_step in RH. destruct p, c; try discriminate RH; destr RH; injection RH as <- _ _; simpl;
+        rewrite upd_other by exact N; auto.
+    + destr H; injection H as <- _; simpl; rewrite upd_other by exact N; auto.
+    + destr H; injection H as <- _; simpl; rewrite upd_other by exact N; auto.
+    + destruct (cl_step s (OThr t0) p c) as [[s1 p']|] eqn:CL; [|discriminate]. injection H as <- _.
+      unfold cl_step, close_unstarted in CL. destruct p, c; try discriminate CL; destr CL; injection CL as <- _; simpl;
+        rewrite upd_other by exact N; auto.
+  - destruct (mainp s); try discriminate H.
+    2: { destruct (rh_step s OMain PRun p c) as [[[s1 p'] e1]|] eqn:RH; [|discriminate].
+         unfold rh_step in RH. destruct p, c; try discriminate RH; destr RH; injection RH as <- <- _;
+           injection H as <- _; simpl; auto. }
+    all: destr H; injection H as <- _; simpl; auto.
+  - destruct (wat s); try discriminate H.
+    5: { destruct (cl_step s OWatch p c) as [[s1 p']|] eqn:CL; [|discriminate].
+         unfold cl_step, close_unstarted in CL. destruct p, c; try discriminate CL; destr CL; injection CL as <- <-;
+           injection H as <- _; simpl; auto. }
+    all: destr H; injection H as <- _; simpl; auto.
+  - destr H; injection H as <- _; simpl; auto.
+  - unfold close_sub in H. destr H; injection H as <- _; simpl; auto.
+Qed.
+
+(** a run in which every label is internal and enabled *)
+Fixpoint irun (s : rstate) (ls : list label) : option rstate :=
+  match ls with
+  | [] => Some s
+  | l :: ls' => if internal l then match step s l with Some (s', _) => irun s' ls' | None => None end else None
+  end.
+
+Theorem internal_runs_are_finite K ls : forall s s', SInv s -> WInv s -> tbounded K s ->
+  irun s ls = Some s' -> length ls + mu K s' <= mu K s /\ SInv s' /\ WInv s' /\ tbounded K s'.
+Proof.
+  induction ls as [|l ls IH]; intros s s' I W B H; simpl in H.
+  - inversion H; subst. simpl. split; [apply Nat.le_refl|]. split; [assumption|]. split; assumption.
+  - destruct (internal l) eqn:Hi; [|discriminate]. destruct (step s l) as [[s1 e1]|] eqn:E; [|discriminate].
+    pose proof (mu_decreases K s l s1 e1 I W B Hi E) as D.
+    destruct (IH s1 s' (step_sinv _ _ _ _ I E) (step_winv _ _ _ _ I W E) (tbounded_step _ _ _ _ _ B Hi E) H)
+      as (L & I' & W' & B'). simpl. split; [lia|]. split; [assumption|]. split; assumption.
+Qed.
+
+Lemma irun_run ls : forall s s', irun s ls = Some s' -> run s ls = s'.
+Proof.
+  induction ls as [|l ls IH]; intros s s' H; simpl in *; [now injection H|].
+  destruct (internal l); [|discriminate]. destruct (step s l) as [[s1 e]|]; [|discriminate]. now apply IH.
+Qed.
+Lemma run_app a : forall s b, run s (a ++ b) = run (run s a) b.
+Proof. induction a as [|l a IH]; intros s b; simpl; auto. destruct (step s l) as [[s1 e]|]; apply IH. Qed.
+
+(** Self-close terminates (repaired model): from any reachable state, every run of internal labels has at most
+    [mu K s] steps, and when it cannot be extended (no internal label enabled) while Run has started and every added
+    handler's goroutine is past Done (>= 1 handler) - or the Run context is cancelled and all handlers follow it -
+    then Run HAS RETURNED.  [K] is any bound on the thread identifiers used so far. *)
+Theorem self_close_terminates f16 ls0 ls K s' :
+  let s := run (rinit true true true f16) ls0 in
+  tbounded K s -> irun s ls = Some s' ->
+  length ls <= mu K s
+  /\ (~ can_move s' -> mainp s' <> RNone ->
+      (0 < nexth s' /\ all_past_done s') \/ (cctx s' = true /\ all_follow_ctx s') ->
+      exists ok, mainp s' = RDone ok).
+Proof.
+  intros s B H.
+  destruct (run_inv ls0 (rinit true true true f16) (sinv_init _ _ _ _) (winv_init _ _ _ _)) as [I W]. fold s in I, W.
+  destruct (internal_runs_are_finite K ls s s' I W B H) as (L & _). split; [lia|].
+  intros NM N0 Hyp.
+  assert (R : s' = run (rinit true true true f16) (ls0 ++ ls)) by (rewrite run_app; symmetry; apply irun_run; exact H).
+  destruct (mainp s') eqn:E; try congruence; try (eexists; reflexivity).
+  all: exfalso; apply NM; rewrite R; apply self_close_not_stuck; rewrite <- R; rewrite ?E; try discriminate; auto.
+Qed.
